@@ -431,12 +431,19 @@ def _d6(chk, fb):
     n = 0
     for f in sorted(_kernels(fb), key=lambda x: x.key):
         pnames = {p_["name"] for p_ in f.params if "&" not in p_.get("ty", "") or p_["ty"].startswith("const ")}
+        binit = {d["id"]: d["init"] for dn in f.all_nodes() if dn["k"] == "DeclStmt" for d in dn["decls"] if d.get("init") is not None and (d.get("ty") or "") in ("bool", "const bool")}
         for ifn in [x for x in kids(f.body) if x["k"] == "IfStmt"]:
             then = strip(f.nodes[ifn["then"]])
             if then["k"] == "CompoundStmt" and len(kids(then)) == 1:
                 then = strip(kids(then)[0])
-            if then["k"] != "ReturnStmt" or kids(then) or ifn.get("else") is not None:
+            negated = False
+            if ifn.get("else") is not None:
                 continue
+            if then["k"] != "ReturnStmt" or kids(then):
+                # the same shortcut spelled 'if (!(neutral arguments)) { update }': the update is skipped when the condition fails
+                if not any(x["k"] in ("ForStmt", "WhileStmt", "CXXForRangeStmt") for x in walk(f.nodes[ifn["then"]])):
+                    continue
+                negated = True
 
             def scenarios(c):
                 c = strip(c)
@@ -452,20 +459,34 @@ def _d6(chk, fb):
                         if x["k"] == "DeclRefExpr" and x["decl"]["kind"] == "param" and x["decl"]["name"] in pnames and y["k"] in ("IntegerLiteral", "FloatingLiteral"):
                             return [{x["decl"]["name"]: sp.nsimplify(y["val"], rational=True)}]
                 return None
-            sc = scenarios(f.nodes[ifn["cond"]])
+            cnode = f.nodes[ifn["cond"]]
+            if negated:
+                c0 = strip(cnode)
+                if c0["k"] == "UnaryOperator" and c0["op"] == "!":
+                    cnode = kids(c0)[0]
+                    c1 = strip(cnode)
+                    if c1["k"] == "DeclRefExpr" and c1["decl"]["id"] in binit:
+                        cnode = binit[c1["decl"]["id"]]
+                else:
+                    continue
+            else:
+                c1 = strip(cnode)
+                if c1["k"] == "DeclRefExpr" and c1["decl"]["id"] in binit:
+                    cnode = binit[c1["decl"]["id"]]
+            sc = scenarios(cnode)
             if not sc:
                 continue        # a shortcut on sizes / emptiness: not this rule
             # element-wise updates that follow the shortcut
             ups = []
             for x in walk(f.body):
-                if x["k"] in ("BinaryOperator", "CompoundAssignOperator") and x.get("op") in ("=", "+=", "-=", "*=", "/=") and not f.contains(ifn, x):
+                if x["k"] in ("BinaryOperator", "CompoundAssignOperator") and x.get("op") in ("=", "+=", "-=", "*=", "/=") and (negated or not f.contains(ifn, x)):
                     l_ = strip(kids(x)[0])
                     if is_call(l_) and l_["callee"]["name"] in ("operator()", "operator[]") and f.enclosing(x, ("ForStmt", "WhileStmt", "CXXForRangeStmt")) is not None:
                         ups.append((x, l_))
             if not ups:
                 continue
             n += 1
-            con = "shortcut:" + render(f.nodes[ifn["cond"]])[:50]
+            con = "shortcut:" + render(cnode)[:50]
             opaque = {}
 
             def sx(e, env, elem):
